@@ -37,7 +37,7 @@ impl Terms {
   /// entries outside [ylo, yhi] are left as NaN placeholders
   pub fn build_range(ctx: &Ctx, civ: &Civil, ylo: usize, yhi: usize) -> Terms {
     let out: Mutex<Vec<(usize, Term)>> = Mutex::new(Vec::new());
-    par_chunks(ctx, ylo, yhi + 1, 20, |a, b, _| {
+    par_chunks_all(ctx, ylo, yhi + 1, 20, |a, b, _| {
       let mut loc = Vec::new();
       for y in a..b {
         for i in 0..24 {
